@@ -16,6 +16,14 @@
 (* is evaluated for every run configuration (trust configuration x key     *)
 (* the IdP signed with).                                                   *)
 (*                                                                         *)
+(* The SP's TRUST CONFIGURATION is a dimension of its own (section "trust  *)
+(* configurations"): the key descriptors of sp.IDPMetadata (use, Encryp-   *)
+(* tionMethod children, certificates per descriptor, role descriptor), the *)
+(* pinned IDPCertificate, IDPCertificateFingerprint (+Algorithm, format).  *)
+(* The machine derives its roots from it in the code's order               *)
+(* (validateSignature / getIDPSigningCerts / getCertBasedOnFingerprint);   *)
+(* the properties use TrustedKeys(cfg), written from the statement.        *)
+(*                                                                         *)
 (* Named deviations from the code:                                         *)
 (*  - FunctionalMachine: the SP side is deterministic, so its stages are   *)
 (*    operators composed in code order (RespSig, Fields, ActOnRespSig,     *)
@@ -43,13 +51,18 @@
 (*         made over that base element) | "self", ki = KeyInfo variant     *)
 (*         cert | none | rsakeyvalue | othercert (attacker certificate on  *)
 (*         a genuine signature / trusted certificate on an attacker one)   *)
+(*         | "Kidp1" "Kidp2" "Katt" "Kenc" (that certificate, whoever      *)
+(*         signed) | "bad" (an X509Certificate element that holds no       *)
+(*         certificate)                                                    *)
 (***************************************************************************)
 EXTENDS Integers, Sequences, FiniteSets, TLC, Json, IOUtils
 
 CONSTANTS K,          \* attacker steps
           MaxNodes,   \* tree size bound
           BaseSet,    \* base messages explored
-          RunCfgSeq,  \* sequence of [t |-> trust configuration, g |-> IdP signing key]
+          RunCfgSeq,  \* sequence of [t |-> trust configuration (record, see TC), g |-> IdP signing key]
+          Prods,      \* productions the attacker uses (a subset of AllProds: the family explored)
+          KISet,      \* KeyInfo variants the attacker writes
           EmitMin,    \* documents with fewer attacker steps are not emitted (simulation: they are covered exhaustively)
           EmitFrom,   \* documents with n >= EmitFrom are emitted only when Chk(doc) = VERIF_SEED modulo EmitMod
           EmitMod
@@ -140,18 +153,54 @@ DeepBases == { B(TRUE, FALSE, FALSE, "none"), B(FALSE, TRUE, FALSE, "none"), B(T
 ----------------------------------------------------------------------------
 (* trust configurations *)
 
-\* the certificates the SP is configured to trust for signatures
-SignRoots(t) == CASE t = "T1"  -> {"Kidp1"}             \* metadata, one signing key
-                  [] t = "T2"  -> {"Kidp1", "Kidp2"}    \* metadata, two signing keys + Kenc use="encryption"
-                  [] t = "PIN" -> {"Kidp1"}             \* IDPCertificate
-                  [] t = "FP"  -> {"Kidp1"}             \* IDPCertificateFingerprint(+Algorithm) of Kidp1's certificate
+\* certificates that exist; "bad" stands for a string that is no certificate, "-" for "not set"
+Certs == {"Kidp1", "Kidp2", "Kenc", "Katt"}
+Parses(x) == x \in Certs
+Range(s) == { s[i] : i \in 1..Len(s) }
+RECURSIVE Flat(_)
+Flat(ss) == IF ss = <<>> THEN <<>> ELSE Head(ss) \o Flat(Tail(ss))
+
+\* a KeyDescriptor of sp.IDPMetadata: use attribute ("" = omitted), EncryptionMethod children present,
+\* its X509Certificate elements in order, the IDPSSODescriptor (role) it sits in
+KD(use, em, certs, role) == [use |-> use, em |-> em, certs |-> certs, role |-> role]
+S(certs)  == KD("signing", FALSE, certs, 1)
+U(certs)  == KD("", FALSE, certs, 1)
+E(certs)  == KD("encryption", FALSE, certs, 1)
+EM(certs) == KD("encryption", TRUE, certs, 1)
+
+\* the configuration of one ServiceProvider (sp.IDPMetadata is always present: it supplies the entity ID):
+\*   md  : key descriptors of the metadata, in document order
+\*   pin : IDPCertificate ("-" | certificate | "bad")
+\*   fp  : the certificate whose fingerprint is in IDPCertificateFingerprint ("-" = not set)
+\*   alg : IDPCertificateFingerprintAlgorithm ("-" | "sha1" | "sha256" | "sha512")
+\*   fmt : how the fingerprint string was written: "canon" (upper-case hex, colons, computed with alg) |
+\*         "lower" (lower-case hex) | "otheralg" (computed with the other supported algorithm)
+TC(name, md, pin, fp, alg, fmt) == [name |-> name, md |-> md, pin |-> pin, fp |-> fp, alg |-> alg, fmt |-> fmt]
+MdOnly(name, md)        == TC(name, md, "-", "-", "-", "canon")
+Pinned(name, pin, md)   == TC(name, md, pin, "-", "-", "canon")
+Fingerp(name, fp, alg, md) == TC(name, md, "-", fp, alg, "canon")
+
+SupportedAlgs == {"sha256", "sha512"}           \* fingerprint(): everything else is "unknown algorithm"
+
+Ok(rs) == [err |-> FALSE, roots |-> rs]
+Err    == [err |-> TRUE, roots |-> <<>>]
+
+\* getIDPSigningCerts: over all IDPSSODescriptors and their KeyDescriptors, the certificates of those with
+\* use "signing" or without use; none => error; every one of them must parse
+SigningCertSeq(md) == Flat([i \in 1..Len(md) |-> IF md[i].use \in {"", "signing"} THEN md[i].certs ELSE <<>>])
+GetIDPSigningCerts(md) ==
+  LET cs == SigningCertSeq(md)
+  IN IF cs = <<>> THEN Err                                            \* "cannot find any signing certificate"
+     ELSE IF \E i \in 1..Len(cs) : ~Parses(cs[i]) THEN Err           \* base64 / x509.ParseCertificate
+     ELSE Ok(cs)
 
 KeyOf(s, c)  == IF s.key = "G" THEN c.g ELSE s.key
 Attacker(k)  == k \in {"Katt", "Kenc"}
 \* the certificate a KeyInfo carries
 CertOf(s, c) == IF s.ki = "cert" THEN KeyOf(s, c)
-                ELSE IF Attacker(KeyOf(s, c)) THEN "Kidp1" ELSE "Katt"
-HasCert(s)   == s.ki \in {"cert", "othercert"}
+                ELSE IF s.ki = "othercert" THEN (IF Attacker(KeyOf(s, c)) THEN "Kidp1" ELSE "Katt")
+                ELSE s.ki
+HasCert(s)   == s.ki \notin {"none", "rsakeyvalue", "-"}             \* an X509Certificate element is there
 
 ----------------------------------------------------------------------------
 (* validateSignature + goxmldsig.Validate:  "ok" | "absent" | "error" *)
@@ -175,32 +224,62 @@ FindSigSlow(e) == LET ps  == SigPathsPre(e)
                       hit == { j \in 1..Len(ps) : At(e, ps[j]).ref \in {"", e.id} }
                   IN IF hit = {} THEN <<>> ELSE << ps[Min(hit)] >>
 
-DigestOK(e, p, s) == IF s.cov = "self" THEN Len(p) = 1              \* AttackerSignsLast
-                     ELSE RemoveAt(e, p) = Covered(base, s.cov)      \* e detached, that Signature removed
+\* a KeyInfo that names the signer's own certificate explicitly is, under this run, the KeyInfo as it was
+\* sent (the same bytes): not a change of what an enclosing signature covers
+RECURSIVE SameKI(_, _)
+SameKI(t, c) == [t EXCEPT !.ki = IF t.k = "Sig" /\ @ = KeyOf(t, c) THEN "cert" ELSE @,
+                          !.ch = [i \in 1..Len(t.ch) |-> SameKI(t.ch[i], c)]]
+NamesCerts == KISet \cap Certs # {}
+DigestOK(e, p, s, c) == IF s.cov = "self" THEN Len(p) = 1           \* AttackerSignsLast
+                        ELSE LET d == RemoveAt(e, p)                \* e detached, that Signature removed
+                             IN (IF NamesCerts THEN SameKI(d, c) ELSE d) = Covered(base, s.cov)
+
+\* getCertBasedOnFingerprint(el): the first ./Signature/KeyInfo/X509Data/X509Certificate (etree path, tags
+\* only) is parsed, hashed with the configured algorithm and compared with the configured string
+CertByFingerprint(t, e, c) ==
+  LET certKids == { i \in TagSigs(e) : HasCert(e.ch[i]) }
+  IN IF certKids = {} THEN Err                                        \* "no certificate present"
+     ELSE LET x == CertOf(e.ch[Min(certKids)], c)
+          IN IF ~Parses(x) THEN Err                                   \* parseCert
+             ELSE IF t.alg \notin SupportedAlgs THEN Err              \* "fingerprint, unknown algorithm"
+             ELSE IF ~(t.fmt = "canon" /\ x = t.fp) THEN Err          \* "fingerprint mismatch" (string comparison)
+             ELSE Ok(<<x>>)
+
+\* validateSignature, selection of the roots, in the code's order: three guarded branches, then "no certs"
+CodeRoots(t, e, c) ==
+  LET noFp == t.fp = "-" /\ t.alg = "-"
+      b1 == noFp /\ t.pin = "-"                                       \* metadata certificates
+      b2 == t.fp # "-" /\ t.alg # "-" /\ t.pin = "-"                  \* fingerprint
+      b3 == noFp /\ t.pin # "-"                                       \* pinned certificate
+      r1 == GetIDPSigningCerts(t.md)
+      r2 == CertByFingerprint(t, e, c)
+  IN IF b1 /\ r1.err THEN Err
+     ELSE IF b2 /\ r2.err THEN Err
+     ELSE IF b3 /\ ~Parses(t.pin) THEN Err                            \* parseCert(*sp.IDPCertificate)
+     ELSE LET certs == (IF b2 THEN r2.roots ELSE IF b1 THEN r1.roots ELSE <<>>)
+                       \o (IF b3 THEN <<t.pin>> ELSE <<>>)            \* certs = append(certs, cert)
+          IN IF certs = <<>> THEN Err ELSE Ok(certs)                  \* "saml config not set up properly"
 
 Verify(e, c) ==
   IF DirectSigs(e) = {} THEN "absent"
   ELSE IF Cardinality(DirectSigs(e)) > 1 THEN "error"                 \* "expected at most one"
   ELSE
-    LET certKids == { i \in TagSigs(e) : HasCert(e.ch[i]) }
-        \* getCertBasedOnFingerprint: first ./Signature/KeyInfo/X509Data/X509Certificate, trusted iff it hashes right
-        roots == IF c.t = "FP"
-                 THEN (IF certKids = {} THEN {}
-                       ELSE IF CertOf(e.ch[Min(certKids)], c) \in SignRoots("FP") THEN {CertOf(e.ch[Min(certKids)], c)} ELSE {})
-                 ELSE SignRoots(c.t)
+    LET cr == CodeRoots(c.t, e, c)
+        certKids == { i \in TagSigs(e) : HasCert(e.ch[i]) }
         \* KeyInfo without X509Certificate is dropped from the first ./Signature
         dropped == IF certKids = {} THEN Min(TagSigs(e)) ELSE 0
         found == FindSig(e, e.id)
-    IN IF roots = {} THEN "error"
+    IN IF cr.err THEN "error"
        ELSE IF found = <<>> THEN "error"                              \* ErrMissingSignature
-       ELSE LET p  == found[1]
+       ELSE LET roots == cr.roots                                     \* MemoryX509CertificateStore.Roots (a list)
+                p  == found[1]
                 s  == At(e, p)
                 ki == IF p = <<dropped>> THEN "none" ELSE s.ki
-                cert == IF ki \in {"cert", "othercert"} THEN CertOf(s, c)
-                        ELSE IF ki = "none" /\ Cardinality(roots) = 1 THEN CHOOSE r \in roots : TRUE
-                        ELSE "nocert"
-            IN IF cert \notin roots THEN "error"                      \* verifyCertificate
-               ELSE IF ~DigestOK(e, p, s) THEN "error"                \* digest over e minus that Signature
+                cert == IF ki = "none" THEN (IF Len(roots) = 1 THEN roots[1] ELSE "nocert")   \* "Missing x509 Element"
+                        ELSE IF ki = "rsakeyvalue" THEN "nocert"      \* "missing X509Certificate within KeyInfo"
+                        ELSE CertOf(s, c)
+            IN IF cert \notin Range(roots) THEN "error"               \* verifyCertificate (a "bad" one does not parse)
+               ELSE IF ~DigestOK(e, p, s, c) THEN "error"                \* digest over e minus that Signature
                ELSE IF KeyOf(s, c) # cert THEN "error"                \* SignedInfo signature under that certificate
                ELSE "ok"
 
@@ -292,12 +371,12 @@ EditSignedField == \E p \in Paths(doc) :
   /\ At(doc, p).k \in {"Assn", "Resp", "ArtResp"} /\ At(doc, p).org = "g" /\ ~At(doc, p).ed
   /\ Edit(SetAt(doc, p, [At(doc, p) EXCEPT !.ed = TRUE]))
 
-ReSign == \E p \in Paths(doc), key \in {"Katt", "Kenc"}, ki \in {"cert", "none", "rsakeyvalue", "othercert"} :
+ReSign == \E p \in Paths(doc), key \in {"Katt", "Kenc"}, ki \in KISet :
   /\ At(doc, p).k \in {"Assn", "Resp", "ArtResp"}
   /\ \A i \in TagSigs(At(doc, p)) : At(doc, p).ch[i].cov # "self"
   /\ Edit(SetAt(doc, p, [At(doc, p) EXCEPT !.ch = <<ASig(key, ki)>> \o @]))
 
-EditKeyInfo == \E p \in Paths(doc), v \in {"cert", "none", "rsakeyvalue", "othercert"} :
+EditKeyInfo == \E p \in Paths(doc), v \in KISet :
   /\ At(doc, p).k = "Sig" /\ At(doc, p).ki # v
   /\ Edit(SetAt(doc, p, [At(doc, p) EXCEPT !.ki = v]))
 
@@ -315,9 +394,27 @@ Init == /\ base \in BaseSet
         /\ doc = BaseDoc(base)
         /\ n = 0
 
+AllProds == {"Forge", "StripSig", "MoveSig", "EditID", "EditSignedField", "ReSign", "EditKeyInfo",
+             "DuplicateAssertion", "RemoveUnsigned", "ReEncrypt", "WrongNamespace"}
+\* the family that touches who signed and which certificate is named (used where the trust configuration
+\* is crossed with two attacker steps)
+KeyProds == {"StripSig", "ReSign", "EditKeyInfo", "EditSignedField", "ReEncrypt"}
+KIClassic == {"cert", "none", "rsakeyvalue", "othercert"}
+\* explicit certificates: the attacker names any certificate he knows of, or something that is none
+KINamed   == {"cert", "none", "rsakeyvalue", "Kidp1", "Kidp2", "Katt", "bad"}
+
 Next == /\ n < K
-        /\ \/ Forge \/ StripSig \/ MoveSig \/ EditID \/ EditSignedField \/ ReSign \/ EditKeyInfo
-           \/ DuplicateAssertion \/ RemoveUnsigned \/ ReEncrypt \/ WrongNamespace
+        /\ \/ "Forge" \in Prods /\ Forge
+           \/ "StripSig" \in Prods /\ StripSig
+           \/ "MoveSig" \in Prods /\ MoveSig
+           \/ "EditID" \in Prods /\ EditID
+           \/ "EditSignedField" \in Prods /\ EditSignedField
+           \/ "ReSign" \in Prods /\ ReSign
+           \/ "EditKeyInfo" \in Prods /\ EditKeyInfo
+           \/ "DuplicateAssertion" \in Prods /\ DuplicateAssertion
+           \/ "RemoveUnsigned" \in Prods /\ RemoveUnsigned
+           \/ "ReEncrypt" \in Prods /\ ReEncrypt
+           \/ "WrongNamespace" \in Prods /\ WrongNamespace
 
 Spec == Init /\ [][Next]_vars
 
@@ -326,13 +423,32 @@ Spec == Init /\ [][Next]_vars
 
 RunCfgs == { RunCfgSeq[i] : i \in 1..Len(RunCfgSeq) }
 
+\* "one of the IdP certificates the SP is configured to trust", for a trust configuration t:
+\*   a pinned certificate          => only the pinned certificate;
+\*   a certificate fingerprint     => only a certificate with that fingerprint;
+\*   otherwise                     => the signing-use certificates of the IdP metadata (use="signing", or use
+\*                                    omitted = both uses) - never one published for encryption only.
+\* Nothing that is not a certificate is a key.  (Where both a pinned certificate and a fingerprint are set the
+\* statement does not say which wins: the union is used, which can only make the check more lenient.)
+MdSigningUse(md) == UNION { Range(md[i].certs) : i \in { j \in 1..Len(md) : md[j].use \in {"signing", ""} } }
+TrustedKeys(t) == Certs \cap (IF t.pin # "-" \/ t.fp # "-" THEN {t.pin, t.fp} ELSE MdSigningUse(t.md))
+
+\* a configuration under which the statement's "genuine messages are accepted" reading applies: exactly one
+\* way of naming the trusted certificate, everything in it is a certificate, the fingerprint is written the
+\* way the library documents (algorithm it supports, upper-case hex with colons).  Anything else: DontCare.
+AllCertsParse(md) == \A i \in 1..Len(md) : \A j \in 1..Len(md[i].certs) : Parses(md[i].certs[j])
+Clean(t) == /\ AllCertsParse(t.md)
+            /\ \/ t.pin = "-" /\ t.fp = "-" /\ t.alg = "-"
+               \/ Parses(t.pin) /\ t.fp = "-" /\ t.alg = "-"
+               \/ t.pin = "-" /\ Parses(t.fp) /\ t.alg \in SupportedAlgs /\ t.fmt = "canon"
+
 \* element e carries a signature by a configured signing certificate that covers e as it is now
 \* (compared without what sits under Signature elements)
 TrustedCover(e, c) ==
   /\ e.k \in {"Assn", "Resp", "ArtResp"}
   /\ \E i \in 1..Len(e.ch) : LET s == e.ch[i]
                              IN /\ s.k = "Sig" /\ s.ns /\ s.cov \in {"A0", "R0", "T0"}
-                                /\ KeyOf(s, c) \in SignRoots(c.t)
+                                /\ KeyOf(s, c) \in TrustedKeys(c.t)
                                 /\ StripSigs(e) = StripSigs(Orig(base, s.cov))
 
 \* the assertion at path p is IdP content covered by a trusted signature placed on itself
@@ -347,7 +463,7 @@ Trusted(d, p, c) ==
              /\ \A m2 \in (m + 1)..Len(p) : At(d, SubSeq(p, 1, m2)).k # "Sig"    \* not under a Signature of q
 
 Untouched == n = 0
-MustAccept(c) == Untouched /\ c.g \in SignRoots(c.t) /\ (base.sigR \/ base.sigA \/ base.art = "signed")
+MustAccept(c) == Untouched /\ Clean(c.t) /\ c.g \in TrustedKeys(c.t) /\ (base.sigR \/ base.sigA \/ base.art = "signed")
 MustReject(c) == ~ \E p \in AllPaths(doc) : Trusted(doc, p, c)
 \* the same, computed by one descent (cov = covered by a trusted signature on an enclosing Response /
 \* ArtifactResponse with no Signature element in between); equality with MustReject is checked by
@@ -363,7 +479,7 @@ Class(c) == IF MustAccept(c) THEN "MustAccept" ELSE IF MustRejectFast(c) THEN "M
 
 \* the machine's answer and the statement's class for one run configuration
 Pred(c) == LET r == Run(doc, c)
-           IN [t |-> c.t, g |-> c.g, cls |-> Class(c), v |-> r.v, ret |-> r.ret, step |-> r.step]
+           IN [t |-> c.t.name, g |-> c.g, cls |-> Class(c), v |-> r.v, ret |-> r.ret, step |-> r.step]
 Preds == [i \in 1..Len(RunCfgSeq) |-> Pred(RunCfgSeq[i])]
 Idx == 1..Len(RunCfgSeq)
 
@@ -423,10 +539,84 @@ AllProps == LET ps == Preds
                /\ EncryptionTransparentOn(ps) /\ EmitOn(ps)
 
 ----------------------------------------------------------------------------
-(* constants for the cfg files.  The pinned-certificate configuration has the same signing roots as T1
-   in the model; the harness replays T1's prediction on it. *)
+(* the trust configurations explored *)
 
-RunsQuick    == << [t |-> "T1", g |-> "Kidp1"], [t |-> "T2", g |-> "Kidp1"], [t |-> "T2", g |-> "Kidp2"] >>
-RunsDeep     == RunsQuick \o << [t |-> "FP", g |-> "Kidp1"] >>
-RunsThorough == RunsQuick \o << [t |-> "T1", g |-> "Kidp2"], [t |-> "FP", g |-> "Kidp1"], [t |-> "FP", g |-> "Kidp2"] >>
+K1 == <<"Kidp1">>
+K2 == <<"Kidp2">>
+\* what sp.IDPMetadata lists
+Md(m) == CASE m = "none"   -> <<>>                                    \* no KeyDescriptor at all
+           [] m = "s1"     -> <<S(K1)>>                               \* one signing key
+           [] m = "u1"     -> <<U(K1)>>                               \* use omitted
+           [] m = "s2"     -> <<S(K2)>>                               \* ANOTHER key
+           [] m = "s1s2e"  -> <<S(K1), S(K2), E(<<"Kenc">>)>>         \* several signing keys + an encryption-only key
+           [] m = "s12"    -> <<S(<<"Kidp1", "Kidp2">>)>>             \* several certificates in one descriptor
+           [] m = "u1s2"   -> <<U(K1), S(K2)>>
+           [] m = "s1/s2"  -> <<S(K1), KD("signing", FALSE, K2, 2)>>  \* two IDPSSODescriptors
+           [] m = "s1e2"   -> <<S(K1), E(K2)>>                        \* use="encryption" without EncryptionMethod
+           [] m = "s1em2"  -> <<S(K1), EM(K2)>>                       \* use="encryption" with EncryptionMethod children
+           [] m = "e1"     -> <<E(K1)>>                               \* nothing but an encryption-use key
+           [] m = "em1"    -> <<EM(K1)>>
+           [] m = "s1s1"   -> <<S(K1), S(K1)>>                        \* the same certificate twice
+           [] m = "s0s1"   -> <<S(<<>>), S(K1)>>                      \* a descriptor without certificate
+           [] m = "s0"     -> <<S(<<>>)>>
+           [] m = "bad"    -> <<S(<<"bad">>)>>                        \* an unparsable certificate
+           [] m = "s1bad"  -> <<S(K1), S(<<"bad">>)>>
+           [] m = "s1ebad" -> <<S(K1), E(<<"bad">>)>>
+           [] m = "s2bad"  -> <<S(K2), S(<<"bad">>)>>
+
+\* (1) certificates from the IdP metadata
+MdNames == <<"none", "s1", "u1", "s2", "s1s2e", "s12", "u1s2", "s1/s2", "s1e2", "s1em2", "e1", "em1",
+             "s1s1", "s0s1", "s0", "bad", "s1bad", "s1ebad", "s2bad">>
+TMd == [i \in 1..Len(MdNames) |-> MdOnly("md:" \o MdNames[i], Md(MdNames[i]))]
+\* (2) pinned certificate Kidp1, crossed with what the metadata lists at the same time: nothing, the same key,
+\*     another key, the same and another, another for encryption, an unparsable one; an unparsable pinned one
+TPin == << Pinned("pin1:md=none", "Kidp1", Md("none")), Pinned("pin1:md=s1", "Kidp1", Md("s1")),
+           Pinned("pin1:md=s2", "Kidp1", Md("s2")),     Pinned("pin1:md=s1s2e", "Kidp1", Md("s1s2e")),
+           Pinned("pin1:md=u1s2", "Kidp1", Md("u1s2")), Pinned("pin1:md=s2bad", "Kidp1", Md("s2bad")),
+           Pinned("pin1:md=bad", "Kidp1", Md("bad")),
+           Pinned("pinbad:md=none", "bad", Md("none")), Pinned("pinbad:md=s1", "bad", Md("s1")),
+           Pinned("pinbad:md=s1s2e", "bad", Md("s1s2e")) >>
+\* (3) fingerprint of Kidp1's certificate, per algorithm, crossed the same way; written differently; mixed settings
+TFp == << Fingerp("fp1-sha256:md=none", "Kidp1", "sha256", Md("none")), Fingerp("fp1-sha256:md=s1", "Kidp1", "sha256", Md("s1")),
+          Fingerp("fp1-sha256:md=s2", "Kidp1", "sha256", Md("s2")),     Fingerp("fp1-sha256:md=s1s2e", "Kidp1", "sha256", Md("s1s2e")),
+          Fingerp("fp1-sha256:md=bad", "Kidp1", "sha256", Md("bad")),
+          Fingerp("fp1-sha512:md=none", "Kidp1", "sha512", Md("none")), Fingerp("fp1-sha512:md=s1", "Kidp1", "sha512", Md("s1")),
+          Fingerp("fp1-sha512:md=s2", "Kidp1", "sha512", Md("s2")),     Fingerp("fp1-sha512:md=s2bad", "Kidp1", "sha512", Md("s2bad")),
+          Fingerp("fp1-sha1:md=none", "Kidp1", "sha1", Md("none")),     Fingerp("fp1-sha1:md=s1", "Kidp1", "sha1", Md("s1")),
+          Fingerp("fp1-sha1:md=s2", "Kidp1", "sha1", Md("s2")),
+          TC("fp1-sha256-lower:md=s1", Md("s1"), "-", "Kidp1", "sha256", "lower"),
+          TC("fp1-sha256-otheralg:md=s2", Md("s2"), "-", "Kidp1", "sha256", "otheralg"),
+          TC("fp1-noalg:md=s1", Md("s1"), "-", "Kidp1", "-", "canon"),           \* fingerprint without algorithm
+          TC("alg-nofp:md=s1", Md("s1"), "-", "-", "sha256", "canon"),           \* algorithm without fingerprint
+          TC("pin1+fp1-sha256:md=s1", Md("s1"), "Kidp1", "Kidp1", "sha256", "canon"),   \* both ways at once
+          TC("pin1+fp2-sha256:md=s2", Md("s2"), "Kidp1", "Kidp2", "sha256", "canon") >>
+TrustCfgs == TMd \o TPin \o TFp
+
+\* every trust configuration x the key the IdP signs with
+RECURSIVE BothKeys(_)
+BothKeys(ts) == IF ts = <<>> THEN <<>>
+                ELSE << [t |-> Head(ts), g |-> "Kidp1"], [t |-> Head(ts), g |-> "Kidp2"] >> \o BothKeys(Tail(ts))
+RunsTrust == BothKeys(TrustCfgs)
+
+ByName(nm) == LET i == CHOOSE j \in 1..Len(TrustCfgs) : TrustCfgs[j].name = nm IN TrustCfgs[i]
+\* the four configurations the attack exploration has always used, under their old names
+T1  == [ByName("md:s1") EXCEPT !.name = "T1"]
+T2  == [ByName("md:s1s2e") EXCEPT !.name = "T2"]
+FP  == [ByName("fp1-sha256:md=none") EXCEPT !.name = "FP"]
+\* the pinned / fingerprinted certificate while the metadata lists ANOTHER signing key
+PINX == ByName("pin1:md=s2")
+FPX  == ByName("fp1-sha256:md=s2")
+
+RunsQuick    == << [t |-> T1, g |-> "Kidp1"], [t |-> T2, g |-> "Kidp1"], [t |-> T2, g |-> "Kidp2"] >>
+RunsDeep     == RunsQuick \o << [t |-> FP, g |-> "Kidp1"] >>
+RunsThorough == RunsQuick \o << [t |-> T1, g |-> "Kidp2"], [t |-> FP, g |-> "Kidp1"], [t |-> FPX, g |-> "Kidp2"],
+                                [t |-> PINX, g |-> "Kidp1"], [t |-> PINX, g |-> "Kidp2"] >>
+\* two attacker steps of the key family under the configurations in which two sources of certificates meet
+RunsCross    == BothKeys(<< ByName("pin1:md=s2"), ByName("pin1:md=s1s2e"), ByName("fp1-sha256:md=s2"), ByName("fp1-sha512:md=s1"),
+                            ByName("md:s12"), ByName("md:u1s2"), ByName("md:s1e2"), ByName("md:s1s1"), ByName("md:s1/s2") >>)
+
+\* the table of the configurations of this run, for the harness: what to configure, and TrustedKeys / Clean
+CfgJ(t) == [name |-> t.name, md |-> t.md, pin |-> t.pin, fp |-> t.fp, alg |-> t.alg, fmt |-> t.fmt,
+            trusted |-> TrustedKeys(t), clean |-> Clean(t)]
+ASSUME \A i \in 1..Len(RunCfgSeq) : PrintT(<<"TCFG", ToJson(CfgJ(RunCfgSeq[i].t))>>)
 =============================================================================
